@@ -6,12 +6,13 @@
             composition failure ("compose:..."); the paths followed must be those of the specification.
    stress : defining relations of the stress measures and round trips. *)
 EXTENDS FiniteStrain, Judge
-MaxLen == IF IOEnv.TIER = "thorough" THEN 4 ELSE 3
 CoreList == <<"DSIG_DF", "DSIG_DDF", "C_TRUESDELL", "SPATIAL_MODULI", "C_TAU_JAUMANN", "ABAQUS", "DTAU_DF", "DTAU_DDF", "DS_DF", "DS_DC", "DS_DEGL", "DPK1_DF">>
 Idx(f) == CHOOSE i \in 1..12 : CoreList[i] = f
 RECURSIVE Name(_, _)
 Name(p, i) == IF i = 1 THEN p[1] ELSE Name(p, i - 1) \o ">" \o p[i]
-ExpectedPaths == Paths(CoreEdges, MaxLen)
+\* the paths of the quick (at most 3 conversions) or of the thorough (at most 4) tier
+ExpectedPaths3 == Paths(CoreEdges, 3)
+ExpectedPaths4 == Paths(CoreEdges, 4)
 FailsTangent(o) ==
   LET law == [S0 |-> o.S0, Dp |-> o.Dp]
       F0 == OfRowMajor(o.F0)
@@ -26,7 +27,8 @@ FailsTangent(o) ==
   IN  IF Len(o.res) # np THEN {"shape"}
       ELSE {"edge:" \o Name(p, 2) : p \in BadEdges}
            \cup {"compose:" \o Name(o.paths[i], Len(o.paths[i])) : i \in {i \in Bad : Len(o.paths[i]) > 2 /\ ~HasBadEdge(o.paths[i])}}
-           \cup (IF {o.paths[i] : i \in 1..np} = ExpectedPaths THEN {} ELSE {"paths-not-those-of-the-specification"})
+           \cup (IF np = Cardinality(ExpectedPaths3) /\ {o.paths[i] : i \in 1..np} = ExpectedPaths3 THEN {}
+                 ELSE IF np = Cardinality(ExpectedPaths4) /\ {o.paths[i] : i \in 1..np} = ExpectedPaths4 THEN {} ELSE {"paths-not-those-of-the-specification"})
            \cup (IF o.J = Det(F1) THEN {} ELSE {"scale"})
            \cup (IF o.logpaths = <<1, 1, 1, 1>> THEN {} ELSE {"DT_DELOG:direct-and-chained-conversions-differ"})
 Eq(name, ok) == IF ok THEN {} ELSE {name}
